@@ -209,6 +209,7 @@ int main(int argc, char **argv) {
             int budget = 2 + (int)rn(16);
             std::string tree;
             if (chance(6)) tree = gen_deep(8 + (int)rn(5));      /* object nesting 8..12 (root counts) */
+            else if (chance(5)) { int d = chance(50) ? 30 + (int)rn(10) : 200 + (int)rn(60); tree = "{ k61"; for (int i = 0; i < d; i++) tree += " ["; tree += " i7"; for (int i = 0; i < d; i++) tree += " ]"; tree += " }"; }   /* arrays nested 30..259 deep (limit 255) */
             else tree = gen_object(1, budget, chance(10) ? 12 : 8);
             emit("xs " + tree);
             if (chance(30)) emit("xt " + tree);
